@@ -470,6 +470,22 @@ def gen_span_programs(tier: str, rnd: random.Random) -> list[dict]:
                 if fam in ("ET", "ES"):
                     extra += [{"api": "read_settings_data"}, {"api": "table:settings"}]
                 progs.append(program(fam, serial, rated, port, fills, extra))
+    # ES blocks "of any announced length": every length of the runtime block 0..160 and of the settings block 0..100
+    # (an answer may end in the middle of a field), two firmwares, random / 0xFF content
+    serial = SERIALS["ES"][0][0]
+    for fw in ("1414B", "2224E"):
+        lens = list(range(0, 161)) if (not quick or fw == "1414B") else list(range(0, 161, 7))
+        for chunk in range(0, len(lens), 16):
+            fills = []
+            for ln in lens[chunk:chunk + 16]:
+                pat = bytes(rnd.randrange(256) for _ in range(ln)) if ln % 3 else b"\xff" * ln
+                fills.append({"aa55": {"runtime": list(pat)}})
+            progs.append(program("ES", serial, 0, 8899, fills, [], es_fw=fw))
+        for sl in (range(0, 101) if (not quick or fw == "1414B") else range(0, 101, 5)):
+            p = program("ES", serial, 0, 8899, [], [{"api": "read_settings_data"}, {"api": "table:settings"}], es_fw=fw)
+            p["inv"][0]["sim"]["aa55"]["settings_len"] = sl
+            p["inv"][0]["sim"]["regs"].update({0x0550 + i: rnd.randrange(65536) for i in range(52)})
+            progs.append(p)
     return progs
 
 
@@ -525,7 +541,7 @@ def extract_spans(trace: dict, ts: TableSet, frames: "FrameTab") -> list[dict]:
                     sp["_listing"] = ev["table"]
                 cur = None
                 continue
-            sp = {"fam": fam, "api": api, "call": api, "tab": 0, "entry": 0, "single": False, "resp": cur["resp"],
+            sp = {"fam": fam, "api": api, "call": api, "tab": 0, "tab0": 0, "entry": 0, "single": False, "resp": cur["resp"],
                   "ok": bool(ev.get("ok")), "exc": ev.get("exc", ""), "full": bool(ann.get("full", True)), "res": {},
                   "modbus": fam in ("ET", "DT"), "prevFailed": False, "ro": api in READ_ONLY_APIS,
                   "guard": bool(ann.get("guard", False)), "documented": bool(ann.get("documented", False)),
@@ -540,6 +556,8 @@ def extract_spans(trace: dict, ts: TableSet, frames: "FrameTab") -> list[dict]:
                 if kind == "runtime":
                     sp["prevFailed"] = prev_failed
                     prev_failed = not ev.get("ok")
+                    if tables.get("sensors"):
+                        sp["tab0"] = ts.tab(tables["sensors"])      # the listing in force when the call was made
                 last_bulk[kind] = sp
             elif api == "write_setting" and len(cur["args"]) >= 2:
                 sid = cur["args"][0]
